@@ -10,5 +10,6 @@ MCSeeds == {
 MCIds == 1..2
 MCOps == {"New", "Add", "IAdd", "Copy", "CopyEmpty", "Mul", "IMul", "Div", "Sub", "Fill", "Normalize"}
 MCSliceArgs == {<<1, NoneIx>>}
+MCTakeArgs == {<<0>>}
 MCScalars == {<<2, 1, "pyint">>, <<1, 2, "pyfloat">>, <<3, 1, "pyint">>}
 =============================================================================
